@@ -32,8 +32,10 @@ type effState struct {
 	User     map[string]string // "author/id/chain/createdHeight" -> "status|address"
 }
 
-func (w *wd) readEffects() *effState {
-	ctx := w.c.Ctx()
+func (w *wd) readEffects() *effState { return w.readEffectsAt(w.c.Ctx()) }
+
+// readEffectsAt reads the same state through an arbitrary context (a fork of the latest state).
+func (w *wd) readEffectsAt(ctx sdk.Context) *effState {
 	e := &effState{SnapLive: map[string]int{}, Chain: map[string]string{}, Deploy: map[string]string{}, User: map[string]string{}}
 	if cur, err := w.c.App.ValsetKeeper.GetCurrentSnapshot(ctx); err == nil && cur != nil {
 		for id := uint64(1); id <= cur.Id; id++ {
@@ -328,6 +330,10 @@ func (w *wd) judge(events []event, logs []chain.LogLine, what string) {
 			if a.Late > 0 && a.matches {
 				rec.Count("rounds_late_signatures_matching", 1)
 			}
+			if a.Reuse != "" && a.matches {
+				// the used tx carries exactly the call data of this second message
+				rec.Count("rounds_reused_tx_identical_calldata/"+a.Action, 1)
+			}
 			if a.Dissent != "" {
 				rec.Count("rounds_conflicting_receipts/minority-"+a.Dissent, 1)
 				if a.Dissent != dissentLast && a.Receipt == rcStatus0 {
@@ -470,11 +476,13 @@ func dissentTag(a *attempt) string {
 	return "+minority-opposite-receipt:" + a.Dissent
 }
 
-func (w *wd) relayRecorded(a *attempt) bool {
+func (w *wd) relayRecorded(a *attempt) bool { return w.relayRecordedAt(w.c.Ctx(), a) }
+
+func (w *wd) relayRecordedAt(ctx sdk.Context, a *attempt) bool {
 	if a.assignee == nil {
 		return false
 	}
-	h, err := w.c.App.MetrixKeeper.GetValidatorHistory(w.c.Ctx(), a.assignee.ValAddr())
+	h, err := w.c.App.MetrixKeeper.GetValidatorHistory(ctx, a.assignee.ValAddr())
 	if err != nil || h == nil {
 		return false
 	}
